@@ -26,6 +26,7 @@ type LoopSpec struct {
 	Invariants []*Clause
 	Decreases  *Clause
 	Modifies   []*Clause
+	NoMods     bool      // `modifies nothing`: the loop writes no pre-existing heap location
 	Hints      []*Clause // unfold/use hints applied at the preserve check
 }
 
@@ -55,6 +56,7 @@ type Contract struct {
 	Src        string
 	Ghost      []string
 	NoFrame    bool
+	Witnesses  []*Clause // candidate witnesses (over locals) for exists() in postconditions
 	IntOnly    bool // use the contract only from int-mode callers; bv-mode callers inline the body
 }
 
@@ -107,13 +109,14 @@ type ContractDB struct {
 	Globals    []*GlobalInv
 	Files      []string
 	Consts     map[string]string // spec constants name -> expr text
+	Ghosts     map[string]string // ghost variable name -> type text
 }
 
 func newContractDB() *ContractDB {
-	return &ContractDB{Funcs: map[string]*Contract{}, Specs: map[string]*SpecFunc{}, Lemmas: map[string]*Lemma{}, Consts: map[string]string{}}
+	return &ContractDB{Funcs: map[string]*Contract{}, Specs: map[string]*SpecFunc{}, Lemmas: map[string]*Lemma{}, Consts: map[string]string{}, Ghosts: map[string]string{}}
 }
 
-var keywordRe = regexp.MustCompile(`^(package|func|requires|ensures|modifies|mode|loop|invariant|decreases|hint|unfold|use|induct|may_panic|trusted|abstracts|inline|intonly|property|spec|lemma|struct|global|ghost|noframe|const)\b`)
+var keywordRe = regexp.MustCompile(`^(package|func|requires|ensures|modifies|mode|loop|invariant|decreases|hint|unfold|use|induct|may_panic|trusted|abstracts|inline|intonly|witness|property|spec|lemma|struct|global|ghost|noframe|const)\b`)
 
 // stripComment removes a trailing `// ...` that is outside string literals
 func stripComment(s string) string {
@@ -494,6 +497,14 @@ func (db *ContractDB) LoadFile(path, pkgPath string, trusted bool) error {
 			db.Consts[strings.TrimSpace(rest[:i])] = strings.TrimSpace(rest[i+1:])
 		default:
 			if cur == nil && curLemma == nil {
+				if kw == "ghost" {
+					f := strings.Fields(rest)
+					if len(f) != 2 {
+						return fmt.Errorf("%s: ghost <name> <type>", st.src)
+					}
+					db.Ghosts[f[0]] = f[1]
+					continue
+				}
 				if kw == "property" && len(db.Structs) > 0 {
 					db.Structs[len(db.Structs)-1].Props = strings.Fields(rest)
 					continue
@@ -517,6 +528,12 @@ func (db *ContractDB) LoadFile(path, pkgPath string, trusted bool) error {
 				for _, tx := range texts {
 					tx = strings.TrimSpace(tx)
 					if tx == "" {
+						continue
+					}
+					if kw == "modifies" && tx == "nothing" {
+						if curLoop != nil {
+							curLoop.NoMods = true
+						}
 						continue
 					}
 					var cl *Clause
@@ -591,6 +608,12 @@ func (db *ContractDB) LoadFile(path, pkgPath string, trusted bool) error {
 				cur.NoFrame = true
 			case "intonly":
 				cur.IntOnly = true
+			case "witness":
+				cl, err := parseClause(rest, st.src)
+				if err != nil {
+					return err
+				}
+				cur.Witnesses = append(cur.Witnesses, cl)
 			case "property":
 				cur.Props = append(cur.Props, strings.Fields(rest)...)
 			case "ghost":
